@@ -19,7 +19,7 @@ def expected : List (String × List String) := [
   ("statematrix.py:StateMatrix.copy", ["sm = self.__new__(type(self))", "coll = self.arrays.copy()", "if states is not None:\n    coll.update('states', states, resize=True)", "if 'equilibrium' in kwargs:\n    coll.update('equilibrium', kwargs.pop('equilibrium'), resize=True)", "if 'coords' in kwargs:\n    coll.update('coords', kwargs.pop('coords'), resize=True)", "sm.arrays = coll", "sm.kvalue = kwargs.pop('kvalue', self.kvalue)", "sm.tvalue = kwargs.pop('tvalue', self.tvalue)", "sm.options = {**self.options, **kwargs}", "sm.system = self.system.copy()", "coll._linked = {sm.system}", "coll._update_shape()", "return sm"]),
   ("statematrix.py:ArrayCollection.copy", ["coll = self.__new__(type(self))", "layouts, arrays = (self._layouts, self._arrays)", "coll._expand_axis = self._expand_axis", "coll._shape = self._shape", "coll._arrays = {name: coll.xp.array(arrays[name]) for name in arrays}", "coll._layouts = dict(layouts)", "coll._shapes = dict(self._shapes)", "coll._axes = dict(self._axes)", "coll._default = self._default", "coll._linked = set()", "return coll"]),
   ("functions.py:simulate", ["sm = init.copy(**options)", "sm = sm.copy()", "part = part.copy(**popts)"]),
-  ("functions.py:simulate_simple", ["if disp:\n    sequence = utils.progressbar(sequence, 'Simulating: ')", "tic = 0", "times, values = ([], [])", "for op in sequence:\n    sm = op(sm, inplace=True)\n    tic = tic + op.duration\n    if isinstance(op, Probe):\n        values.append([(pb or op).acquire(sm, post=op.post) for pb in probes or [op]])\n        times.append(tic)\n    elif callback:\n        callback(sm)", "return (values, times)"])
+  ("functions.py:simulate_simple", ["if disp:\n    sequence = utils.progressbar(sequence, 'Simulating: ')", "tic = 0", "times, values = ([], [])", "for op in sequence:\n    sm = op(sm, inplace=True)\n    tic = np.add(*common.expand_arrays(tic, op.duration, append=True))\n    if isinstance(op, Probe):\n        values.append([(pb or op).acquire(sm, post=op.post) for pb in probes or [op]])\n        times.append(tic)\n    elif callback:\n        callback(sm)", "return (values, times)"])
 ]
 
 theorem sites_as_modelled : Gen.PuritySites.sites = expected := rfl
